@@ -1,7 +1,8 @@
 ------------------------------ MODULE MC_C08 ------------------------------
 EXTENDS C08_MPSCanon
 DevNone    == {}
-DevCode    == {"swap_both", "sample_info", "measure_last", "measure_outcome", "tnorm_flag"}
+\* the code as it is after the fix: commits for swap_both / measure_last / tnorm_flag (KF-C08-2 and -4 remain)
+DevCode    == {"sample_info", "measure_outcome"}
 DevSwap    == {"swap_both"}
 DevSample  == {"sample_info"}
 DevMeasure == {"measure_last"}
